@@ -19,6 +19,7 @@ import (
 	"github.com/valinurovam/garagemq/amqp"
 	"github.com/valinurovam/garagemq/metrics"
 	"github.com/valinurovam/garagemq/qos"
+	"github.com/valinurovam/garagemq/verifhook"
 )
 
 // connection status list
@@ -131,8 +132,11 @@ func (conn *Connection) close() {
 	conn.status = ConnClosed
 	conn.statusLock.Unlock()
 
+	verifhook.Enter("conn.close")
+	defer verifhook.Exit("conn.close")
 	// @todo should we check for errors here? And what should we do if error occur
 	_ = conn.netConn.Close()
+	verifhook.At("connclose.afterSocket")
 
 	if conn.cancelCtx != nil {
 		conn.cancelCtx()
@@ -153,6 +157,7 @@ func (conn *Connection) close() {
 		delete(conn.channels, uint16(chID))
 	}
 	conn.channelsLock.Unlock()
+	verifhook.At("connclose.beforeClearQueues")
 	conn.clearQueues()
 
 	conn.logger.WithFields(log.Fields{
@@ -282,6 +287,7 @@ func (conn *Connection) handleOutgoing() {
 				conn.logger.WithError(err).Warn("writing frame")
 				return
 			}
+			verifhook.CountKey("conn.written", conn.id)
 
 			if frame.CloseAfter {
 				if err = buffer.Flush(); err != nil && !conn.isClosedError(err) {
@@ -360,6 +366,7 @@ func (conn *Connection) handleIncoming() {
 		}
 		conn.srvMetrics.TrafficIn.Counter.Inc(int64(len(frame.Payload)))
 		conn.metrics.TrafficIn.Counter.Inc(int64(len(frame.Payload)))
+		verifhook.CountKey("conn.read", conn.id)
 
 		conn.channelsLock.RLock()
 		channel, ok := conn.channels[frame.ChannelID]
